@@ -35,6 +35,7 @@ def run(ctx):
     ctx.guard(r4)
     ctx.guard(r5_position_space)
     ctx.guard(r6_intervals)
+    ctx.guard(r7_clip)
 
 
 def _walk(stmts):
@@ -478,3 +479,46 @@ def r6_intervals(ctx):
                                        "C": "a coordinate"}[rr], rl, op, rr,
                                       MEANING.get(form, "not exact for [start, end)")))
     ctx.floor("C08.R6", n, 8, "interval comparisons in the partitioners")
+
+
+# -- R7: partitions are clipped to the active range of the fiber being split -----------
+
+def r7_clip(ctx):
+    """build_elem returns (start, coords, payloads, (max(start, A0), min(end,
+    A1))).  (A0, A1) must be the active range of the splitter's own fiber
+    (`self.fiber`): the splitter class is instantiated per sub-fiber when the
+    split happens at depth > 0, so a range captured from the enclosing method
+    belongs to the root and is stale for every sub-fiber."""
+    for key in ("core/fiber.py:Fiber.splitUniform._SplitterUniform.build_elem",
+                "core/fiber.py:Fiber._splitNonUniform_iter._SplitterNonUniform_iter.build_elem"):
+        f = ctx.func(key)
+        rets = pat.returns(f)
+        ok = False
+        why = "no (start, end) pair returned"
+        if rets and isinstance(rets[0].value, ast.Tuple) and len(rets[0].value.elts) == 4:
+            ar = rets[0].value.elts[3]
+            if isinstance(ar, ast.Name):
+                ar = pat.single_def(ctx, f, ar)
+            if isinstance(ar, ast.Tuple) and len(ar.elts) == 2:
+                parts = []
+                for e, fn, idx in ((ar.elts[0], "max", "0"), (ar.elts[1], "min", "1")):
+                    v = pat.single_def(ctx, f, e) if isinstance(e, ast.Name) else e
+                    if isinstance(v, ast.Call) and text(v.func) == fn and len(v.args) == 2:
+                        srcs = [text(a).replace(" ", "") for a in v.args]
+                        parts.append("self.fiber.getActive()[%s]" % idx in srcs)
+                        if not parts[-1]:
+                            why = "`%s` does not clip to self.fiber.getActive()[%s]" % (text(v), idx)
+                    else:
+                        parts.append(False)
+                        why = "`%s` is not %s(.., self.fiber.getActive()[%s])" % (text(e), fn, idx)
+                ok = all(parts)
+        if ok:
+            ctx.ok("C08.R7", f, rets[0], "partition active range clipped to the "
+                   "split fiber's own active range", text_="%s clip" % f.qual.split(".")[-2])
+        else:
+            ctx.bad("C08.R7", f, rets[0] if rets else f.node, "the partition's "
+                    "active range is not its interval clipped to the active "
+                    "range of the fiber being split (%s): for a split below "
+                    "the root the range belongs to another fiber, so "
+                    "partitions of partitions no longer tile the original"
+                    % why, text_="%s clip" % f.qual.split(".")[-2])
